@@ -546,9 +546,25 @@ def run (j : Json) : Except String Json := do
     let i ← (fromJson? a[0]! : Except String Nat)
     if a[1]!.isNull then pure (i, none) else pure (i, some (← valOfJson a[1]!)))
   let ops := concreteOps { attrs := attrs, comps := comps }
+  -- the look-ups (arguments, closure, globals) separately, if given: Python's scoping for `pyEval`, the visitor's
+  -- own first-one-wins merge for `visit`
+  let lookupsJ := (j.getObjValAs? (Array Json) "lookups").toOption
+  let lookups ← (match lookupsJ with
+    | none => pure none
+    | some arr => do
+        let ls ← arr.toList.mapM (fun lj => do
+          let items ← (fromJson? lj : Except String (Array Json))
+          items.toList.mapM (fun p => do
+            let a ← (fromJson? p : Except String (Array Json))
+            let n ← (fromJson? a[0]! : Except String String)
+            let v ← valOfJson a[1]!
+            pure (n, v)))
+        pure (some ls))
+  let names := match lookups with | some ls => pyScope ls | none => names
   let env : Env := { names := names, builtins := bi.map (fun n => (n, Ex.Val.fn n)) }
   let py := pyEval ops env e
-  let vr := visit ops env.builtins (Tbl.ofNames names) e
+  let tbl := match lookups with | some ls => Tbl.ofLookups ls | none => Tbl.ofNames names
+  let vr := visit ops env.builtins tbl e
   let inner := innerIds e
   let textsJ := (j.getObjValAs? (Array Json) "texts").toOption.getD #[]
   let texts ← textsJ.toList.mapM (fun p => do
